@@ -71,7 +71,7 @@ func (c *Ctx) cobraCommands(pkgPath string) map[string]*ssa.Function {
 }
 
 func c15(c *Ctx) {
-	c.R.Explanation = "C15 decided with guarded-path rules on the SSA of /repo. R-map = in every function that loads the stored PWM map (Persistence.LoadFanPwmMap) every path from that call to a call that can sweep the fan (a function that stores the controller's map field and reaches Fan.SetPwm) crosses an edge establishing err != nil or loaded map == nil. R-override = interprocedural typestate from FanController.Run and RunInitializationSequence: LoadFanPwmMap and the sweep are reachable only in state 'configured pwmMap established nil' (set on edges establishing <Config.PwmMap-derived value> == nil); and on the non-nil edge the configured map is stored into the controller's map field before returning. R-data = in Run every path from LoadFanPwmData to RunInitializationSequence crosses the err != nil edge of that load. R-readme = the RunInitializationSequence call in Run is control-dependent on a test of the configured minPwm and maxPwm (README promise). R-reset = the cobra commands 'reset' and 'init' of cmd/fan delete both stored entries on every path to a nil-error return, and 'init' deletes them before running the initialisation. Not decided: the database's run-time behaviour."
+	c.R.Explanation = "C15 decided with guarded-path rules on the SSA of /repo. R-map = in every function that loads the stored PWM map (Persistence.LoadFanPwmMap) every path from that call to a call that can sweep the fan (a function that stores the controller's map field and reaches Fan.SetPwm) crosses an edge establishing err != nil or loaded map == nil. R-override = interprocedural typestate from FanController.Run and RunInitializationSequence: LoadFanPwmMap and the sweep are reachable only in state 'configured pwmMap established nil' (set on edges establishing <Config.PwmMap-derived value> == nil); and on the non-nil edge the configured map is stored into the controller's map field before returning. R-data = in Run every path from LoadFanPwmData to RunInitializationSequence crosses the err != nil edge of that load. R-readme = the RunInitializationSequence call in Run is control-dependent on a test of the configured minPwm and maxPwm (README promise). R-reset = the cobra commands 'reset' and 'init' of cmd/fan delete both stored entries on every path to a nil-error return, and 'init' deletes them before running the initialisation. R-keep = in the call tree of FanController.Run (including the transaction closures of the persistence methods it uses) a bbolt Delete / DeleteBucket is reachable only on the error edge of json.Unmarshal: the daemon never discards stored characterisation on a condition of its own. Not decided: the database's run-time behaviour."
 	tb := ir.NewTB(c.P.IsRepoFunc, c.P.FuncKey)
 	tb.InlineMaxBlocks = 0
 
@@ -81,6 +81,7 @@ func c15(c *Ctx) {
 		c.R.Undecided("R-map", "no-impl", "FanController", "-", "no FanController implementation found")
 		return
 	}
+	c.ruleKeepStored("R-keep", runs)
 
 	// map fields of the controller(s): fields of type map[int]int of the receiver struct
 	isMapField := func(fa *ssa.FieldAddr) bool {
@@ -470,4 +471,79 @@ func c15(c *Ctx) {
 		})
 	}
 	c.R.Require("R-reset", 4)
+}
+
+// ruleKeepStored: the daemon never discards stored characterisation on its own. In the call tree of
+// FanController.Run (VTA call graph, so the persistence implementation behind the interface is included) a bbolt
+// Delete / DeleteBucket is reachable only on the error edge of json.Unmarshal (an entry that cannot be decoded
+// is useless). Deleting on any other condition - a changed snapshot, an age, a version - makes the next start
+// repeat the analysis although the user did not ask for it (that is what `fan init` / `fan reset` are for).
+func (c *Ctx) ruleKeepStored(rule string, runs []*ssa.Function) {
+	tree := c.Closure(runs, false, nil)
+	// the persistence methods run their transaction bodies as closures handed to the database library: add the
+	// closures (and their callees inside the package) of every persistence function in the tree
+	for changed := true; changed; {
+		changed = false
+		for f := range tree {
+			if load_FuncPkgPath(f) != PkgPersist {
+				continue
+			}
+			for _, a := range f.AnonFuncs {
+				if !tree[a] {
+					tree[a] = true
+					changed = true
+				}
+			}
+			Calls(f, func(cc ssa.CallInstruction) {
+				if st := ir.Callee(cc).Static; st != nil && load_FuncPkgPath(st) == PkgPersist && !tree[st] {
+					tree[st] = true
+					changed = true
+				}
+			})
+		}
+	}
+	// a closure belongs to the tree only with the function it is written in: a shared "with the database open"
+	// helper calls whatever closure it is handed, and the context-insensitive call graph would otherwise pull in
+	// the closures of the CLI-only Delete* methods
+	for f := range tree {
+		if f.Parent() == nil {
+			continue
+		}
+		root := f
+		for root.Parent() != nil {
+			root = root.Parent()
+		}
+		if !tree[root] {
+			delete(tree, f)
+		}
+	}
+	n, nbad := 0, 0
+	for _, fn := range c.SortedFuncs(tree) {
+		if !c.P.IsRepoFunc(fn) {
+			continue
+		}
+		Calls(fn, func(cc ssa.CallInstruction) {
+			name := ir.CallName(cc)
+			if !strings.HasSuffix(name, "bbolt.Bucket).Delete") && !strings.HasSuffix(name, "bbolt.Bucket).DeleteBucket") && !strings.HasSuffix(name, "bbolt.Tx).DeleteBucket") {
+				return
+			}
+			n++
+			facts := ir.BlockFacts(cc.Block())
+			onDecodeError := ir.HasFact(facts, token.NEQ, func(x, y ssa.Value) bool {
+				if !ir.IsNilConst(y) {
+					return false
+				}
+				call, ok := ir.Resolve(x).(*ssa.Call)
+				return ok && (ir.CallName(call) == "encoding/json.Unmarshal" || strings.HasSuffix(ir.CallName(call), ".Decode"))
+			})
+			key := c.FK(fn) + "|" + name[strings.LastIndex(name, ".")+1:]
+			if onDecodeError {
+				c.R.Ok(rule, key, c.FK(fn), c.P.Pos(cc.Pos()), "stored data is deleted on the daemon's path only where it could not be decoded")
+			} else {
+				nbad++
+				c.R.Bad(rule, key, c.FK(fn), c.P.Pos(cc.Pos()), "stored fan data can be deleted on the daemon's own start-up / regulation path on a condition other than 'the entry cannot be decoded': the next start analyses the fan again although the user did not discard the data")
+			}
+		})
+	}
+	c.R.Ok(rule, "summary", "(call graph)", "-", sprintf("%d bbolt delete sites reachable from FanController.Run, %d not on a decode-error edge", n, nbad))
 }
